@@ -55,7 +55,9 @@ DEFAULTS = {"server_replay_ignore_content": False, "server_replay_ignore_host": 
             "server_replay_kill_extra": False, "server_replay_refresh": True}
 
 QUERY_ATOMS = [["x", "1"], ["x", "2"], ["y", "1"], ["y", "2"], ["sid", "s1"], ["sid", "s2"], ["z", ""],
-               ["sidx", "1"], ["sidx", "2"]]   # "sidx" is never ignored although "sid" often is
+               ["sidx", "1"], ["sidx", "2"],   # "sidx" is never ignored although "sid" often is
+               ["a=", "b"], ["a", "=b"], ["x", "1&y=1"], ["x&y", "1"]]   # delimiters inside names/values (sent percent-encoded)
+TWINS = {("a=", "b"): ["a", "=b"], ("a", "=b"): ["a=", "b"], ("x", "1&y=1"): ["x&y", "1"], ("x&y", "1"): ["x", "1&y=1"]}
 FORM_SETS = [[["u", "1"], ["tok", "t1"]], [["u", "1"], ["tok", "t2"]], [["u", "2"], ["tok", "t1"]],
              [["tok", "t3"], ["u", "1"]], [["u", "1"]], [["u", "1"], ["tokx", "t1"]], [["u", "1"], ["tokx", "t2"]]]
 REP_VALUES = ["a", "b", "c"]    # values of a repeated form field ("item" is never ignored, "u" and "tok" sometimes are)
@@ -165,7 +167,9 @@ def _mutate(r, s, focus=False):
             i = r.randrange(len(s["query"]))
             k = s["query"][i][0]
             alts = [q for q in QUERY_ATOMS if q[0] == k and q != s["query"][i]]
-            if alts:
+            if tuple(s["query"][i]) in TWINS:
+                s["query"][i] = list(TWINS[tuple(s["query"][i])])
+            elif alts:
                 s["query"][i] = list(r.choice(alts))
             else:
                 del s["query"][i]
@@ -393,7 +397,8 @@ def _body_bytes(s) -> bytes:
 
 
 def _url(s):
-    q = "&".join(f"{k}={v}" for k, v in s.get("query", []))
+    from urllib.parse import quote
+    q = "&".join(f"{quote(k, safe='')}={quote(v, safe='')}" for k, v in s.get("query", []))
     return f"{s['scheme']}://{s['host']}:{s['port']}{s['path']}" + ("?" + q if q else "")
 
 
